@@ -36,7 +36,8 @@ KINDS = ['json', 'gen', 'lazy', 'npy', 'listnpy', 'pd', 'dir', 'cont', 'mem']
 def bounds(tier):
     return {'data_kinds': KINDS, 'crash_points': 'every tick of the faulted request', 'torn_prefix_kinds': 3,
             'faults': ['run raises early', 'run raises late / at item m', 'mistyped return', 'unserialisable value',
-                       'crash before operation k'], 'modes': ['first computation', 'forced over existing result']}
+                       'crash before operation k'], 'modes': ['first computation', 'forced over existing result'],
+            'second_crash_during_recovery': tier == 'thorough'}
 
 
 def cases(tier):
@@ -60,6 +61,7 @@ def spec_for(kind):
 def make_harness(case, tier):
     kind, mode, fault = case
     hist.setup(full=True)
+    tier = tier or 'quick'
     spec = spec_for(kind)
 
     def harness(ctx):
@@ -217,6 +219,28 @@ def make_harness(case, tier):
         world.drop_chains()
         ref.drop_chains()
         family.FAIL.clear()
+        if tier == 'thorough' and fault == 'crash' and ctx.flag('second_crash'):
+            # the process that comes to recover dies as well, at file operation k2 of its own request
+            k2c = ctx.choice('k2', 14)
+            torn2 = ctx.choice('torn2', 3)
+            if _rp.MODE['replay']:
+                from sx import realcrash
+                realcrash.run_crashing(str(fs.root), 'checks.c05', repr(case), ctx.replay_info.get('crash2'), phase=2)
+            else:
+                from sx.mfs import Crash
+                kb = world.build(0)
+                fs.crash_at = fs.ticks + k2c
+                fs.torn = lambda chunks, tk=torn2: torn_prefix(chunks, tk)
+                n0 = len(fs.log)
+                try:
+                    world.task(kb, 'work').value
+                except Crash:
+                    pass
+                except Exception:
+                    pass
+                info['crash2'] = describe_tick_since(fs, fs.crashed_at, torn2, n0) if fs.crashed_at else None
+                fs.reboot()
+                world.drop_chains()
         k2 = world.build(0)
         ref.build(0)
         t2 = world.task(k2, 'work')
@@ -247,14 +271,15 @@ def make_harness(case, tier):
     return harness
 
 
-def crash_child(root, case):
-    """(replay) the faulted request on the real file system, inside the child process that will be killed."""
+def crash_child(root, case, phase=1):
+    """(replay) the faulted request on the real file system, inside the child process that will be killed.
+    phase 2 = the recovery request of a later process, which dies as well (thorough tier)."""
     kind, mode, fault = case
     spec = spec_for(kind)
     world = hist.World(spec, [{}], real_root=root)
     k = world.build(0)
     task = world.task(k, 'work')
-    if mode == 'forced':
+    if mode == 'forced' and phase == 1:
         task.force()
     task.value
 
@@ -282,6 +307,16 @@ def describe_tick(fs, what, torn_kind):
     for w in fs.log:
         if w[0] == kind and '/'.join(map(str, w[1][1:])) == rel:
             n += 1
+    return {'op': kind, 'path': rel, 'nth': n, 'torn': torn_kind}
+
+
+def describe_tick_since(fs, what, torn_kind, start):
+    """like describe_tick, counting occurrences only among the operations of the second process"""
+    if what is None:
+        return None
+    kind = what[0]
+    rel = '/'.join(map(str, what[1][1:]))
+    n = sum(1 for w in fs.log[start:] if w[0] == kind and '/'.join(map(str, w[1][1:])) == rel)
     return {'op': kind, 'path': rel, 'nth': n, 'torn': torn_kind}
 
 
